@@ -97,9 +97,15 @@ def main():
     rc0, out0 = sh("timeout 1500 sh -c %s" % json.dumps(demo), shell=True)
     log["demo_without_change"] = {"rc": rc0, "tail": out0[-600:]}
     rc, out = sh(["git", "apply", os.path.join(outd, "patch.diff")])
+    rebased = False
     if rc != 0:
-        print("patch does not apply:", out)
-        reset(); return 1
+        # /repo HEAD moved since the seed was written (fix commits): try with fuzz, keep the rebased diff
+        rc, out2 = sh(["patch", "-p1", "-F3", "--no-backup-if-mismatch", "-i", os.path.join(outd, "patch.diff")])
+        if rc != 0:
+            print("patch does not apply:", out, out2[-500:])
+            reset(); return 1
+        rebased = True
+        _, newdiff = sh(["git", "diff"])
     rcb, outb = sh(["go", "build", "./cmd/...", "./internal/..."])
     log["build_with_change"] = {"rc": rcb, "tail": outb[-600:]}
     rc1, out1 = sh("timeout 1500 sh -c %s" % json.dumps(demo), shell=True)
@@ -136,6 +142,9 @@ def main():
         dst = os.path.join(V, "seeded", sid)
         shutil.rmtree(dst, ignore_errors=True)
         shutil.copytree(outd, dst)
+        if rebased:
+            shutil.copy2(os.path.join(dst, "patch.diff"), os.path.join(dst, "patch.orig.diff"))
+            open(os.path.join(dst, "patch.diff"), "w").write(newdiff)
         meta["confirmed_by_coordinator"] = {"repo_head": head, "worktree": WT, "commands": [
             "demo without change: " + demo + " -> rc 0",
             "git apply patch.diff && go build ./... -> rc 0",
